@@ -11,8 +11,8 @@ PROPS = {
     'C04': dict(
         units=['builder'],
         deps=[],
-        witness=[['c04', '--no-c15'], ['c02', '--random', '20000']],
-        witness_thorough=[['c04', '--no-c15', '--depth', '3', '--random', '300000'], ['c02', '--random', '400000']],
+        witness=[['c04', '--no-c15'], ['c02', '--random', '20000', '--programs', '600']],
+        witness_thorough=[['c04', '--no-c15', '--depth', '3', '--random', '3000000'], ['c02', '--random', '2000000', '--programs', '20000']],
         level='proof',
         technique='Verus contracts (requires/ensures/decreases + builder invariant) on the real push_* functions, extracted each run',
         claim='Unbounded deductive proof (Verus/Z3) that every gate-emitting function of the real CircuitBuilder returns a wire whose '
@@ -32,7 +32,7 @@ PROPS = {
         units=['builder'],
         deps=[],
         witness=['c04', '--only-c15'],
-        witness_thorough=['c04', '--only-c15', '--depth', '3', '--random', '300000'],
+        witness_thorough=['c04', '--only-c15', '--depth', '3', '--random', '3000000'],
         level='proof',
         technique='Verus data-structure invariant (c15) on the real CircuitBuilder, proved preserved by every push_* function',
         claim='Unbounded deductive proof (Verus/Z3) of the emission-side invariant: no AND gate with a constant or repeated operand '
@@ -51,8 +51,8 @@ PROPS = {
         deps=[('builder', 'C04')],
         kani=[dict(name='c02_unsigned_as_usize_bits', fn='circuit::unsigned_as_usize_bits', label='complete-over-u64',
                    bound='all u64 values; the 32-iteration loop fully unrolled (unwinding assertions on)')],
-        witness=['c02', '--random', '20000'],
-        witness_thorough=['c02', '--random', '400000'],
+        witness=['c02', '--random', '20000', '--programs', '600'],
+        witness_thorough=['c02', '--random', '4000000', '--programs', '40000'],
         level='proof',
         technique='Verus contracts on the real push_panic_if / mux_uncached_panic / mux_panic / replace_panic_with, with the '
                   'recorded-conditions invariant; the If, &&, || and Match arms of TypedExpr::compile lifted (R5) with the recursive compile calls as '
@@ -97,7 +97,7 @@ PROPS = {
                  bound='<= 2 instructions, <= 2 parties x <= 2 bits, <= 2 outputs, max_reg_count 1..5; every register / party / input index a full-range u32'),
         ],
         witness=['c16', '--depth', '1', '--random', '300000'],
-        witness_thorough=['c16', '--depth', '2', '--random', '3000000'],
+        witness_thorough=['c16', '--depth', '2', '--random', '30000000'],
         level='proof',
         technique='Verus contracts on the real register_circuit::Circuit::validate / eval (and the Index<Reg> / IndexMut<Reg> impls they use): validate()==Ok '
                   'implies the well-definedness predicate, which is the precondition under which every index operation of eval is proved in bounds; '
@@ -137,7 +137,7 @@ PROPS = {
                            ('c03_extend_16_32', True), ('c03_extend_16_64', True), ('c03_extend_32_64', True),
                            ('c03_extend_1_16', True), ('c03_extend_1_32', True), ('c03_extend_1_64', True)]],
         witness=['c03', '--random', '3000'],
-        witness_thorough=['c03', '--exhaustive8', '--random', '40000', '--consts', '12'],
+        witness_thorough=['c03', '--exhaustive8', '--random', '200000', '--consts', '12'],
         level='proof',
         technique='Verus contracts on the real word-level circuits (adder, negation, subtraction, comparators, equality) against '
                   'mathematical integers for every width, and on the operator arms of TypedExpr::compile lifted as functions (R5)',
@@ -172,7 +172,7 @@ PROPS = {
         units=['arith'],
         deps=[('builder', 'C04')],
         witness=['c13', '--max', '4', '--per', '40'],
-        witness_thorough=['c13', '--max', '7', '--per', '400'],
+        witness_thorough=['c13', '--max', '8', '--per', '3000'],
         level='proof',
         technique='Verus contracts on the real compare-exchange layer (push_gt_circuit, push_condswap, push_eq_circuit)',
         claim='Unbounded deductive proof (Verus/Z3) of the compare-exchange layer used by join: push_gt_circuit returns exactly the unsigned '
@@ -180,7 +180,7 @@ PROPS = {
               'push_eq_circuit is exact equality; push_sorter is a whole-element compare-exchange on the first `bits` wires. The bitonic network '
               'topology (push_bitonic_merger / push_bitonic_sorter) and compile_bitonic_merge (padding, tag bit, duplicate guard) are NOT under '
               'contract: a bounded differential through compile + eval runs for-join loops and the join built-in for every size pair up to (4,4) '
-              '(thorough (7,7)) on sorted key arrays (random keys incl. 0 and 255, identical and disjoint sets, one key repeated within one array) '
+              '(thorough (8,8)) on sorted key arrays (random keys incl. 0 and 255, identical and disjoint sets, one key repeated within one array) '
               'against a reference merge join (body once per common key with the matching payloads; flagged entries exactly the common keys, zero '
               'elsewhere, flags sorted).',
         note='Trusted: as C04. Unverified: network topology and everything in compile_bitonic_merge / the join built-in.',
@@ -225,7 +225,7 @@ PROPS = {
                  bound='all u64 values x all sizes 0..=64; loops fully unrolled (unwinding assertions on)'),
         ],
         witness=['c09', '--values', '60'],
-        witness_thorough=['c09', '--values', '3000'],
+        witness_thorough=['c09', '--values', '100000'],
         level='other',
         technique='Kani harnesses on the real integer encoders/decoders (complete over all 64-bit values and sizes) + bounded differential check of the '
                   'literal API against a reference value model',
@@ -246,7 +246,7 @@ PROPS = {
         units=['consts'],
         deps=[],
         witness=['c12', '--random', '1500'],
-        witness_thorough=['c12', '--random', '60000'],
+        witness_thorough=['c12', '--random', '1000000'],
         level='proof',
         technique='Verus contracts on the arithmetic arms of resolve_const_expr_{usize,unsigned,signed} (macro instantiated by R6, arms lifted by R5) against a recursive spec function',
         claim='Deductive proof (Verus/Z3), for every expression tree and every constant assignment, that each arithmetic arm of the three instances of '
@@ -265,7 +265,7 @@ PROPS = {
         units=['regalloc'],
         deps=[],
         witness=['c10', '--depth', '2', '--random', '100000'],
-        witness_thorough=['c10', '--depth', '3', '--random', '2000000'],
+        witness_thorough=['c10', '--depth', '3', '--random', '20000000'],
         level='proof',
         technique='Verus contract + allocator invariant on the real RegisterAllocator::find_out_reg; bounded differential check of the whole conversion on the real code',
         claim='Deductive proof (Verus/Z3), for every allocator state satisfying the invariant (live wires in pairwise different registers, free list '
@@ -285,7 +285,7 @@ PROPS = {
         units=['patterns', 'typing', 'patlower', 'branches'],
         deps=[('builder', 'C04'), ('arith', 'C03'), ('panic', 'C02')],
         witness=['c08', '--random', '4000'],
-        witness_thorough=['c08', '--random', '400000'],
+        witness_thorough=['c08', '--random', '3000000'],
         level='proof',
         technique='Verus contracts on the real integer layer of pattern matching: bound check of pattern typing (expect_pattern_in_range), constructor '
                   'splitting (split_unsigned_range, split_signed_range), the integer arms of specialize and the integer arms of TypedPattern::compile '
